@@ -275,3 +275,87 @@ N.append({'id': 'noop-statements-everywhere', 'generator': 'insert-noops', 'file
 # generated: every if/else of the Python package turned round (`if not t: B else: A`, 11 sites) and
 # the keyword arguments of every call written in reverse order (52 calls); tested (59303 passed)
 N.append({'id': 'py-if-else-swapped-and-keywords-reversed', 'generator': 'py-shuffle', 'file': None, 'edits': []})
+
+# ---- helper extraction (the arm walker looks through small helpers and local lambdas) ---------
+n('flatten-dict-keys-via-lambda', 'src/treespec/flatten.cpp', [
+    ("""            case PyTreeKind::Dict:
+            case PyTreeKind::OrderedDict:
+            case PyTreeKind::DefaultDict: {
+                py::list keys;
+                {
+                    const scoped_critical_section cs{handle};
+                    const auto dict = py::reinterpret_borrow<py::dict>(handle);
+                    node.arity = DictGetSize(dict);
+                    keys = DictKeys(dict);
+                    if (node.kind != PyTreeKind::OrderedDict) [[likely]] {
+                        node.original_keys = py::getattr(keys, Py_Get_ID(copy))();
+                        if constexpr (DictShouldBeSorted) {
+                            TotalOrderSort(keys);
+                        }
+                    }
+                    for (const py::handle& key : keys) {
+                        recurse(DictGetItem(dict, key));
+                    }
+                }
+                if (node.kind == PyTreeKind::DefaultDict) [[unlikely]] {
+                    const scoped_critical_section cs{handle};
+                    node.node_data = py::make_tuple(py::getattr(handle, Py_Get_ID(default_factory)),
+                                                    std::move(keys));""",
+     """            case PyTreeKind::Dict:
+            case PyTreeKind::OrderedDict:
+            case PyTreeKind::DefaultDict: {
+                const auto ordered_keys_of = [&node](const py::dict& mapping) -> py::list {
+                    py::list result = DictKeys(mapping);
+                    if (node.kind != PyTreeKind::OrderedDict) [[likely]] {
+                        node.original_keys = py::getattr(result, Py_Get_ID(copy))();
+                        if constexpr (DictShouldBeSorted) {
+                            TotalOrderSort(result);
+                        }
+                    }
+                    return result;
+                };
+                py::list keys;
+                {
+                    const scoped_critical_section cs{handle};
+                    const auto dict = py::reinterpret_borrow<py::dict>(handle);
+                    node.arity = DictGetSize(dict);
+                    keys = ordered_keys_of(dict);
+                    for (const py::handle& key : keys) {
+                        recurse(DictGetItem(dict, key));
+                    }
+                }
+                if (node.kind == PyTreeKind::DefaultDict) [[unlikely]] {
+                    const scoped_critical_section cs{handle};
+                    node.node_data = py::make_tuple(py::getattr(handle, Py_Get_ID(default_factory)),
+                                                    std::move(keys));""")])
+n('iter-dict-keys-via-helper', 'src/treespec/traversal.cpp', [
+    ("""template <bool NoneIsLeaf>
+// NOLINTNEXTLINE[readability-function-cognitive-complexity]
+py::object PyTreeIter::NextImpl() {""",
+     """// The keys of a dict node in the order its children are yielded (children are pushed reversed).
+static inline py::list ReversedKeysOf(const py::dict& mapping, const bool& should_sort) {
+    py::list result = DictKeys(mapping);
+    if (should_sort) [[likely]] {
+        TotalOrderSort(result);
+    }
+    if (PyList_Reverse(result.ptr()) < 0) [[unlikely]] {
+        throw py::error_already_set();
+    }
+    return result;
+}
+
+template <bool NoneIsLeaf>
+// NOLINTNEXTLINE[readability-function-cognitive-complexity]
+py::object PyTreeIter::NextImpl() {"""),
+    ("""                py::list keys = DictKeys(dict);
+                if (kind != PyTreeKind::OrderedDict && !m_is_dict_insertion_ordered) [[likely]] {
+                    TotalOrderSort(keys);
+                }
+                if (PyList_Reverse(keys.ptr()) < 0) [[unlikely]] {
+                    throw py::error_already_set();
+                }
+                for (const py::handle &key : keys) {""",
+     """                const py::list keys = ReversedKeysOf(
+                    dict,
+                    kind != PyTreeKind::OrderedDict && !m_is_dict_insertion_ordered);
+                for (const py::handle &key : keys) {""")])
